@@ -7,6 +7,7 @@ import (
 	"os"
 	"os/exec"
 	"strings"
+	"sync"
 	"testing"
 
 	"github.com/whoisnian/glb/util/strutil"
@@ -370,7 +371,15 @@ func genString() *rapid.Generator[string] {
 		parts := rapid.SliceOfN(rapid.SampledFrom([]string{"'", "''", "'\"'\"'", "\"", "\\", "\\'", "$(id)", "`id`", "${x}", " ", "\t", "\n", ";", "&&", "|", ">", "<", "*", "?", "[a]", "~", "~/", "!", "#", "a", "é", "\xff", "\x01", "\x7f", "--", "=", "(", ")", "{", "}", "\r"}), 0, 12).Draw(t, "parts")
 		return strings.Join(parts, "")
 	})
-	base := rapid.OneOf(arbitrary, symbolic, hostile, hostile)
+	long := rapid.Custom(func(t *rapid.T) string {
+		n := rapid.SampledFrom([]int{255, 256, 257, 1023, 1025, 4096, 4096, 4096, 4096, 4096, 4096, 4096, 4096, 4096, 4096, 4096, 4096, 4096, 4096, 4096, 70000}).Draw(t, "len")
+		if n == 4096 {
+			n = rapid.IntRange(200, 600).Draw(t, "midlen")
+		}
+		unit := rapid.SampledFrom([]string{"a", "'", "a'", "\\", "$x ", "\xff", "ab\n"}).Draw(t, "unit")
+		return strings.Repeat(unit, n/len(unit)+1)[:n] + rapid.SampledFrom([]string{"", "'", "\"", "$(id)"}).Draw(t, "tail")
+	})
+	base := rapid.OneOf(arbitrary, symbolic, hostile, hostile, arbitrary, symbolic, hostile, hostile, arbitrary, symbolic, hostile, hostile, arbitrary, symbolic, hostile, long)
 	return rapid.Custom(func(t *rapid.T) string {
 		s := base.Draw(t, "s")
 		switch rapid.IntRange(0, 5).Draw(t, "prefix") {
@@ -481,5 +490,52 @@ func FuzzEscape(f *testing.F) {
 				t.Fatal(msg)
 			}
 		}
+	})
+}
+
+// TestConcurrentCallers: the functions are plain string functions and may be called from any number of goroutines;
+// every caller must get the word for its own input (run under the race detector).
+func TestConcurrentCallers(t *testing.T) {
+	rt.Check(t, 60, 3000, func(t *rapid.T) {
+		g := rapid.IntRange(2, 8).Draw(t, "goroutines")
+		inputs := make([][]string, g)
+		for i := range inputs {
+			n := rapid.IntRange(5, 40).Draw(t, "n")
+			for k := 0; k < n; k++ {
+				inputs[i] = append(inputs[i], genString().Draw(t, "s"))
+			}
+		}
+		msgs := make([]string, g)
+		var wg sync.WaitGroup
+		for i := range inputs {
+			wg.Add(1)
+			go func(i int) {
+				defer wg.Done()
+				var kept []string
+				for _, s := range inputs[i] {
+					for _, fn := range fns {
+						if m := modelCheck(fn, s); m != "" && msgs[i] == "" {
+							msgs[i] = m
+						}
+					}
+					kept = append(kept, item{"ShellEscape", s}.escaped())
+				}
+				for k, s := range inputs[i] {
+					if want := (item{"ShellEscape", s}).escaped(); kept[k] != want && msgs[i] == "" {
+						msgs[i] = fmt.Sprintf("ShellEscape(%q) returned %q earlier, now that same string reads %q (want %q)", s, "?", kept[k], want)
+					}
+				}
+			}(i)
+		}
+		wg.Wait()
+		for _, m := range msgs {
+			if m != "" {
+				t.Fatalf("concurrent callers: %s", m)
+			}
+		}
+		ev.Label("concurrent_callers")
+		ev.Case(true, ev.Hash("conc", fmt.Sprint(inputs)), func() string {
+			return fmt.Sprintf("%d goroutines escaping %d strings each concurrently", g, len(inputs[0]))
+		})
 	})
 }
